@@ -3,7 +3,7 @@ import LokiModel.Props.C13
 # C13 — regression statements about defects repaired by `fix:` commits (old behaviour, self-contained definitions)
 
 Not part of the property theorems and not gating: `Props/C13.lean` states what the code does now
-(`C13_no_recursion`; `empty-dimensions-array` is open again, its repair was reverted).  The witnesses of the findings that are still open
+(`C13_no_recursion`; `C13_rescope_class`; `empty-dimensions-array` stays open for explicit `dimensions=()`, the repair in `Variable.__new__` was reverted).  The witnesses of the findings that are still open
 (`C13_type_shared_full_false`, `C13_create_name_full_false`, `C13_read_pure_full_false`) live in `Props/C13.lean`
 because the `_partial` theorems there refer to them.
 -/
@@ -25,5 +25,14 @@ theorem C13_old_deferred_member_recursion :
     let p : Link := { cls := .scalar, base := "p".toList, scope := some 0, ty := none }
     tdefVarTypeOld ss p ("d".toList, deferredTy) = .recursion ∧
     tdefVarType ss p ("d".toList, deferredTy) = .ok (some deferredTy) := by decide
+
+/-- what `Array.rescope` handed to the factory before the fix for `array-rescope-keeps-array`: always `self.dimensions` -/
+def rescopeDimsOld (s : Sym) : Option Nat := if s.self.cls = .array then some s.self.dims else none
+
+/-- an `Array` without subscripts rescoped to a plain INTEGER entry used to stay an `Array`; now it is a `Scalar` -/
+theorem C13_old_rescope_array_stays_array :
+    let a : Sym := { self := { cls := .array, base := "x".toList, scope := none, ty := some { dtype := .real, shape := some 1 } } }
+    classify (some { dtype := .integer }) "x".toList (rescopeDimsOld a) = .array ∧
+    classify (some { dtype := .integer }) "x".toList (rescopeDims a) = .scalar := by decide
 
 end LokiModel.C13
